@@ -19,6 +19,9 @@ import Restful.Lemmas.TieOrder
 import Restful.Lemmas.TieImpMatch
 import Restful.Lemmas.TieImpScore
 import Restful.Lemmas.TieImpTemplate
+import Restful.Lemmas.TieImpCurlySel
+import Restful.Lemmas.TieImpJsrSel
+import Restful.Lemmas.TieImpDetect
 namespace Restful
 namespace Props
 variable (E : ReEnv)
@@ -177,3 +180,8 @@ end Restful
 -- also: Restful.TieImp.match_tokens
 -- also: Restful.TieImp.T2.webservice_score
 -- also: Restful.TieImp.template_to_regex
+-- also: Restful.TieImp.detect_web_service
+-- also: Restful.TieImp.select_routes
+-- also: Restful.TieImp.jsr_select_routes
+-- also: Restful.TieImp.jsr_detect_dispatcher
+-- also: Restful.TieImp.detect_route
